@@ -29,7 +29,7 @@ func init() {
 		Rule: "case = one generated package (stores of every policy incl. delete_prefix, some back-filled by tier2 before the fork zone) x one fork tree of 5..8 heights above a final base block (<=3 siblings per height, 1..4 forks of random length from random fork points, flip-flop prone because branches overtake each other, monotone LIB per branch) x a PRNG arrival order (linear extension of parent-before-child with occasional child-before-parent), " +
 			"turned into new/undo/stalled/final steps by the real bstream forkable.Forkable and fed to a development-mode tier1 request. Monitors: after EVERY step the harness holds the stack of applied block ids; typed content of every store must equal a fresh REF-LINEAR run over exactly that chain and SizeBytes() must equal the store's own content size; " +
 			"client model over the response stream: keeps data messages, drops blocks above last_valid_block on an undo signal; every undo designates a held block (or the one before the first), its cursor decodes to it, no two blocks at one height without an undo in between, and at the end the client holds exactly the reference outputs of the canonical chain. " +
-			"reconnection: for up to two data messages whose block was forked out later, a new request carries that block's cursor (cursor resolver = the tree, hook H9; linear feed = the canonical chain): the first message after the session must be one undo signal designating the junction with the canonical chain (cursor included), the resolved start is junction+1, and the client - holding what it held at that message - must again end with exactly the reference outputs of the canonical chain. " +
+			"reconnection: for up to two data messages whose block was forked out later, a new request carries that block's cursor (cursor resolver = the tree, hook H9; linear feed = the canonical chain): the first message after the session must be one undo signal designating the junction with the canonical chain (cursor included), the resolved start is junction+1, and the client - holding what it held at that message - must again end with exactly the reference outputs of the canonical chain; each candidate is reconnected twice: \"soon\" (same finality: everything after the junction is linear) and \"late\" (production mode, canonical chain extended by 2..3 segments and final far beyond the junction: the blocks after the junction are back-filled by segment jobs fed with the canonical tree blocks, then the stream goes on linearly). " +
 			"non-trivial = history with at least one undo of a block whose deltas contain a delete, a create or a size-changing update; counted separately: same block undone twice",
 		Assumptions: []string{
 			"the step sequence is whatever the real forkable emits for the generated arrival order (filters = all steps)",
@@ -474,8 +474,11 @@ func runForkHistory(c *fw.Case, prop string) {
 	}
 
 	// ---- reconnection: a client that disconnected while holding a block that was forked out afterwards comes back with that
-	// block's cursor. The server must answer with an undo signal for the junction with the canonical chain, restart right after
-	// it, and the client must again end with exactly the reference outputs of the canonical chain.
+	// block's cursor. The server must answer with ONE undo signal for the junction with the canonical chain, before any data,
+	// restart right after it, and the client must again end with exactly the reference outputs of the canonical chain.
+	// Variant "soon": same finality as before (the restart point is not final: everything is linear).
+	// Variant "late" (production mode): the chain has become final far beyond the junction, so the blocks after the junction
+	// are first back-filled from segment jobs / cached outputs and the stream then goes on linearly.
 	if prop == "C03" {
 		canonical := map[string]bool{}
 		for n := uint64(0); n <= base; n++ {
@@ -484,6 +487,54 @@ func runForkHistory(c *fw.Case, prop string) {
 		canonPath := tree.Path(finalTop)
 		for _, id := range canonPath {
 			canonical[id] = true
+		}
+		extendTo := func(num uint64) { // make the canonical chain reach height num
+			for base+uint64(len(canonPath)) < num {
+				lastID, lastNum := sim.BlockID(base), base
+				if len(canonPath) > 0 {
+					lastID = canonPath[len(canonPath)-1]
+					lastNum = tree.Node(lastID).Num
+				}
+				nd := tree.Extend(lastID, lastNum, base)
+				canonPath = append(canonPath, nd.ID)
+				canonical[nd.ID] = true
+			}
+		}
+		canonAt := func(n uint64) (id, parent string) {
+			if n <= base {
+				if n > 0 {
+					parent = sim.BlockID(n - 1)
+				}
+				return sim.BlockID(n), parent
+			}
+			extendTo(n)
+			nd := tree.Node(canonPath[n-base-1])
+			return nd.ID, nd.Parent
+		}
+		// feedCanon feeds the canonical chain from `from`: blocks up to finalAt as new+irreversible, later ones as new
+		feedCanon := func(finalAt uint64, limit uint64) func(ctx context.Context, h bstream.Handler, from, stopNum uint64, cursor string) error {
+			return func(ctx context.Context, h bstream.Handler, from, stopNum uint64, cursor string) error {
+				for n := from; n <= limit; n++ {
+					if err := ctx.Err(); err != nil {
+						return err
+					}
+					id, parent := canonAt(n)
+					ref := bstream.NewBlockRef(id, n)
+					var obj *sim.Obj
+					lib := n
+					if n <= finalAt {
+						obj = &sim.Obj{Cur: &bstream.Cursor{Step: bstream.StepNewIrreversible, Block: ref, LIB: ref, HeadBlock: ref}, StepType: bstream.StepNewIrreversible}
+					} else {
+						lib = finalAt
+						lid, _ := canonAt(finalAt)
+						obj = &sim.Obj{Cur: &bstream.Cursor{Step: bstream.StepNew, Block: ref, LIB: bstream.NewBlockRef(lid, finalAt), HeadBlock: ref}, StepType: bstream.StepNew}
+					}
+					if err := h.ProcessBlock(sim.MakeBlock(n, id, parent, lib), obj); err != nil {
+						return err
+					}
+				}
+				return fmt.Errorf("harness: canonical chain exhausted before the stop block")
+			}
 		}
 		type cand struct {
 			cursor string
@@ -519,6 +570,10 @@ func runForkHistory(c *fw.Case, prop string) {
 		if len(cands) > 2 {
 			cands = cands[:2]
 		}
+		origHandoff := uint64(0)
+		if sess != nil {
+			origHandoff = sess.LinearHandoffBlock
+		}
 		for _, cd := range cands {
 			// junction: deepest ancestor of the forked block on the canonical chain
 			jid, jnum := cd.id, cd.num
@@ -541,142 +596,151 @@ func runForkHistory(c *fw.Case, prop string) {
 					}
 					id, num = n.Parent, n.Num-1
 				}
-				return bstream.NewBlockRef(id, num), bstream.NewBlockRef(finalTop, topNum), nil
+				hid, _ := canonAt(base + uint64(len(canonPath)))
+				return bstream.NewBlockRef(id, num), bstream.NewBlockRef(hid, base+uint64(len(canonPath))), nil
 			}
-			feed2 := func(ctx context.Context, h bstream.Handler, from, stopNum uint64, cursor string) error {
-				for n := from; ; n++ {
-					if err := ctx.Err(); err != nil {
-						return err
+			// one reconnection; refc = reference over the canonical chain up to stopAt-1
+			reconnect := func(label string, rq sim.RequestSpec, stopAt uint64, refc *sim.RefChainResult) bool {
+				rr := s.cl.Run(rq)
+				c.Count("reconnections_with_forked_cursor", 1)
+				c.Count("reconnections_"+label, 1)
+				var canonIDs []string
+				for n := start; n < stopAt; n++ {
+					id, _ := canonAt(n)
+					canonIDs = append(canonIDs, id)
+				}
+				ex := map[string]any{"reconnection": label, "reconnect_request": rq, "reconnect_cursor_block": fmt.Sprintf("%d %s", cd.num, cd.id), "junction": fmt.Sprintf("%d %s", jnum, jid), "canonical_chain": canonIDs, "jobs": rr.Jobs}
+				if rr.Stuck {
+					viol("reconnect/request-stuck", "request resumed from the cursor of a forked block made no progress for 45 s", wit(ex))
+					return false
+				}
+				if rr.Err != nil {
+					if strings.Contains(rr.Err.Error(), "harness:") {
+						c.Inconclusive("harness feed: " + rr.Err.Error())
+						return false
 					}
-					var id, parent string
-					var obj *sim.Obj
-					var lib uint64
-					if n <= base {
-						id = sim.BlockID(n)
-						if n > 0 {
-							parent = sim.BlockID(n - 1)
-						}
-						ref := bstream.NewBlockRef(id, n)
-						lib = n
-						obj = &sim.Obj{Cur: &bstream.Cursor{Step: bstream.StepNewIrreversible, Block: ref, LIB: ref, HeadBlock: ref}, StepType: bstream.StepNewIrreversible}
-					} else {
-						k := int(n - base - 1)
-						if k > len(canonPath)+2 {
-							return fmt.Errorf("harness: canonical chain exhausted before the stop block")
-						}
-						for k >= len(canonPath) { // the block that ends the request (the stop block itself is not executed)
-							lastID, lastNum := sim.BlockID(base), base
-							if len(canonPath) > 0 {
-								lastID = canonPath[len(canonPath)-1]
-								lastNum = tree.Node(lastID).Num
+					viol("reconnect/request-failed/"+fw.NormalizeMsg(rr.Err.Error()), "request resumed from the cursor of a forked block failed: "+rr.Err.Error(), wit(ex))
+					return false
+				}
+				sess2 := rr.Session()
+				if sess2 == nil || sess2.ResolvedStartBlock != jnum+1 {
+					viol("reconnect/wrong-start", fmt.Sprintf("forked cursor: resolved start %v, expected right after the junction (%d)", sess2, jnum+1), wit(ex))
+					return false
+				}
+				client2 := append([]held(nil), cd.held...)
+				sawUndo, sawData := false, false
+				for _, r := range rr.Responses {
+					switch m := r.Message.(type) {
+					case *pbsubstreamsrpc.Response_BlockUndoSignal:
+						u := m.BlockUndoSignal
+						if sawData || sawUndo {
+							after := "a second time"
+							if sawData {
+								after = fmt.Sprintf("after %d data messages (the client drops every block above the junction again)", len(client2))
 							}
-							canonPath = append(canonPath, tree.Extend(lastID, lastNum, base).ID)
+							viol("reconnect/undo-signal-out-of-place", "the undo signal for a forked cursor must come once, before any data; it came "+after, wit(ex))
+							return false
 						}
-						nd := tree.Node(canonPath[k])
-						id, parent, lib = nd.ID, nd.Parent, base
-						ref := bstream.NewBlockRef(id, n)
-						obj = &sim.Obj{Cur: &bstream.Cursor{Step: bstream.StepNew, Block: ref, LIB: bstream.NewBlockRef(sim.BlockID(base), base), HeadBlock: ref}, StepType: bstream.StepNew}
-					}
-					if err := h.ProcessBlock(sim.MakeBlock(n, id, parent, lib), obj); err != nil {
-						return err
+						sawUndo = true
+						cur, err := bstream.CursorFromOpaque(u.LastValidCursor)
+						if u.LastValidBlock.Id != jid || u.LastValidBlock.Number != jnum || err != nil || cur.Block.ID() != jid {
+							viol("reconnect/undo-wrong-junction", fmt.Sprintf("undo signal designates %d %s (cursor %v), the junction of block %s with the canonical chain is %d %s", u.LastValidBlock.Number, u.LastValidBlock.Id, cur, cd.id, jnum, jid), wit(ex))
+							return false
+						}
+						kept := client2[:0:0]
+						for _, h := range client2 {
+							if h.num <= jnum {
+								kept = append(kept, h)
+							}
+						}
+						client2 = kept
+					case *pbsubstreamsrpc.Response_BlockScopedData:
+						d := m.BlockScopedData
+						if !sawUndo {
+							viol("reconnect/no-undo-signal", fmt.Sprintf("data for block %d %s arrived without an undo signal although the cursor's block %s is not on the canonical chain", d.Clock.Number, d.Clock.Id, cd.id), wit(ex))
+							return false
+						}
+						sawData = true
+						var payload []byte
+						if d.Output != nil && d.Output.MapOutput != nil {
+							payload = d.Output.MapOutput.Value
+						}
+						client2 = append(client2, held{d.Clock.Number, d.Clock.Id, payload})
 					}
 				}
+				// the client must now hold the canonical chain with the reference payloads (back-filled blocks with an empty
+				// output may have been omitted in production mode, by the first request or by this one)
+				ci := 0
+				for k, id := range canonIDs {
+					num := start + uint64(k)
+					if ci < len(client2) && client2[ci].id == id {
+						if !bytes.Equal(client2[ci].payload, refc.Payload[id]) {
+							viol("reconnect/final-chain-differs", fmt.Sprintf("after reconnecting the client holds %s with payload %q, the canonical chain's reference payload is %q", id, client2[ci].payload, refc.Payload[id]), wit(ex))
+							return false
+						}
+						ci++
+						continue
+					}
+					omittable := len(refc.Payload[id]) == 0 && ((num <= jnum && prodMode && num < origHandoff) || (num > jnum && rq.Prod && num < sess2.LinearHandoffBlock))
+					if omittable {
+						continue
+					}
+					viol("reconnect/final-chain-differs", fmt.Sprintf("after reconnecting the client holds %v, canonical chain is %v: block %s is missing or out of place", heldIDs(client2, func(h held) string { return h.id }), canonIDs, id), wit(ex))
+					return false
+				}
+				if ci != len(client2) {
+					viol("reconnect/final-chain-differs", fmt.Sprintf("after reconnecting the client holds %v which are not all on the canonical chain %v", heldIDs(client2, func(h held) string { return h.id }), canonIDs), wit(ex))
+					return false
+				}
+				c.Count("reconnections_converged", 1)
+				if len(rr.Jobs) > 0 {
+					c.Count("reconnections_with_backfilled_part", 1)
+				}
+				return true
 			}
+
+			// variant "soon"
 			rq := spec
 			rq.Cursor = cd.cursor
-			rq.LinearFeed = feed2
+			rq.LinearFeed = feedCanon(base, stop+2)
 			rq.CursorResolver = resolver
 			rq.OrderSeed = 1 + c.R.Int63n(1<<40)
-			if pl, err := s.cl.PlanFor(rq); err != nil || pl.KnownHangShape() {
-				continue
-			}
-			rr := s.cl.Run(rq)
-			c.Count("reconnections_with_forked_cursor", 1)
-			ex := map[string]any{"reconnect_cursor_block": fmt.Sprintf("%d %s", cd.num, cd.id), "junction": fmt.Sprintf("%d %s", jnum, jid), "canonical_chain": chain}
-			if rr.Stuck {
-				viol("reconnect/request-stuck", "request resumed from the cursor of a forked block made no progress for 45 s", wit(ex))
-				return
-			}
-			if rr.Err != nil {
-				if strings.Contains(rr.Err.Error(), "harness:") {
-					c.Inconclusive("harness feed: " + rr.Err.Error())
+			if pl, err := s.cl.PlanFor(rq); err == nil && !pl.KnownHangShape() {
+				if !reconnect("soon", rq, stop, ref) {
 					return
 				}
-				viol("reconnect/request-failed/"+fw.NormalizeMsg(rr.Err.Error()), "request resumed from the cursor of a forked block failed: "+rr.Err.Error(), wit(ex))
+			}
+			// variant "late": the chain went on and became final; production mode
+			stop2 := stop + 2*s.seg + uint64(c.R.Intn(int(s.seg)+1))
+			extendTo(stop2 + 2)
+			final2 := stop2 - 1 - uint64(c.R.Intn(int(s.seg)))
+			var suffix []sim.ChainBlock
+			for n := base + 1; n < stop2; n++ {
+				id, parent := canonAt(n)
+				suffix = append(suffix, sim.ChainBlock{Num: n, ID: id, Parent: parent})
+			}
+			ref2, err := sim.RunRefChain(s.pkg.Modules, out, s.seg, base, suffix)
+			if err != nil {
+				continue
+			}
+			rq2 := spec
+			rq2.Prod = true
+			rq2.Stop = stop2
+			rq2.Final = final2
+			rq2.Cursor = cd.cursor
+			rq2.CursorResolver = resolver
+			rq2.LinearFeed = feedCanon(final2, stop2+2)
+			t2 := feedCanon(stop2+2, stop2+2)
+			rq2.Tier2Feed = func(ctx context.Context, h bstream.Handler, from, stopNum uint64) error { return t2(ctx, h, from, stopNum, "") }
+			rq2.OrderSeed = 1 + c.R.Int63n(1<<40)
+			pl2, err := s.cl.PlanFor(rq2)
+			if err != nil || pl2.KnownHangShape() || !(pl2.Details.ResolvedStartBlockNum < pl2.Details.LinearHandoffBlockNum && pl2.Details.LinearHandoffBlockNum < stop2) {
+				c.Count("late_reconnections_not_applicable", 1)
+				continue
+			}
+			if !reconnect("late", rq2, stop2, ref2) {
 				return
 			}
-			client2 := append([]held(nil), cd.held...)
-			sawUndo, sawData := false, false
-			for _, r := range rr.Responses {
-				switch m := r.Message.(type) {
-				case *pbsubstreamsrpc.Response_BlockUndoSignal:
-					u := m.BlockUndoSignal
-					if sawData || sawUndo {
-						viol("reconnect/undo-signal-out-of-place", "the undo signal for a forked cursor must come once, before any data", wit(ex))
-						return
-					}
-					sawUndo = true
-					cur, err := bstream.CursorFromOpaque(u.LastValidCursor)
-					if u.LastValidBlock.Id != jid || u.LastValidBlock.Number != jnum || err != nil || cur.Block.ID() != jid {
-						viol("reconnect/undo-wrong-junction", fmt.Sprintf("undo signal designates %d %s (cursor %v), the junction of block %s with the canonical chain is %d %s", u.LastValidBlock.Number, u.LastValidBlock.Id, cur, cd.id, jnum, jid), wit(ex))
-						return
-					}
-					kept := client2[:0:0]
-					for _, h := range client2 {
-						if h.num <= jnum {
-							kept = append(kept, h)
-						}
-					}
-					client2 = kept
-				case *pbsubstreamsrpc.Response_BlockScopedData:
-					d := m.BlockScopedData
-					if !sawUndo {
-						viol("reconnect/no-undo-signal", fmt.Sprintf("data for block %d %s arrived without an undo signal although the cursor's block %s is not on the canonical chain", d.Clock.Number, d.Clock.Id, cd.id), wit(ex))
-						return
-					}
-					sawData = true
-					var payload []byte
-					if d.Output != nil && d.Output.MapOutput != nil {
-						payload = d.Output.MapOutput.Value
-					}
-					client2 = append(client2, held{d.Clock.Number, d.Clock.Id, payload})
-				}
-			}
-			if sess2 := rr.Session(); sess2 == nil || sess2.ResolvedStartBlock != jnum+1 {
-				viol("reconnect/wrong-start", fmt.Sprintf("forked cursor: resolved start %v, expected right after the junction (%d)", sess2, jnum+1), wit(ex))
-				return
-			}
-			// the client must now hold the canonical chain with the reference payloads
-			ci := 0
-			for _, id := range chain {
-				var num uint64
-				if n := tree.Node(id); n != nil {
-					num = n.Num
-				} else {
-					fmt.Sscanf(id, "b%d", &num)
-				}
-				if num >= stop {
-					break
-				}
-				if ci < len(client2) && client2[ci].id == id {
-					if !bytes.Equal(client2[ci].payload, ref.Payload[id]) {
-						viol("reconnect/final-chain-differs", fmt.Sprintf("after reconnecting the client holds %s with payload %q, the canonical chain's reference payload is %q", id, client2[ci].payload, ref.Payload[id]), wit(ex))
-						return
-					}
-					ci++
-					continue
-				}
-				if prodMode && sess != nil && num < sess.LinearHandoffBlock && len(ref.Payload[id]) == 0 {
-					continue
-				}
-				viol("reconnect/final-chain-differs", fmt.Sprintf("after reconnecting the client holds %v, canonical chain is %v: block %s is missing or out of place", heldIDs(client2, func(h held) string { return h.id }), chain, id), wit(ex))
-				return
-			}
-			if ci != len(client2) {
-				viol("reconnect/final-chain-differs", fmt.Sprintf("after reconnecting the client holds %v which are not all on the canonical chain %v", heldIDs(client2, func(h held) string { return h.id }), chain), wit(ex))
-				return
-			}
-			c.Count("reconnections_converged", 1)
 		}
 	}
 	if c.WantSample() {
